@@ -33,15 +33,17 @@ def natives():
     return _NAT
 
 
-@st.composite
-def cases(draw, native=False):
+def cases(native=False):
     if native:
         cfg = gen.Cfg(natives=gates.kinds_table(idle=True, names=_NATIVE_NAMES), reg_args=False, general_numbers=False, max_depth=4, max_lets=5)
     else:
         cfg = gen.Cfg(general_numbers=False, max_depth=4, max_lets=5, shadow=0.6)
-    case = draw(gen.progs(cfg))
-    env = gen.overrides(draw, case["prog"], cfg.natives)
-    return {"prog": case["prog"], "env": env}
+
+    def mk(ch):
+        prog, _b = gen.make_prog(ch, cfg)
+        return {"prog": prog, "env": gen.overrides(ch, prog, cfg.natives)}
+
+    return gen.cases(mk)
 
 
 def check(case, mode):
